@@ -18,8 +18,15 @@ def pre(tier):
     return dict(oracle_checked=ref.self_check(2))
 
 
-def h_diag_pauli(env, N, i0, causal, form='pauli'):
+def h_diag_pauli(env, N, i0, causal, form='pauli', warmup=()):
+    """warmup: earlier diagonalize calls in the same process, [(N', i0', causal')], each on its own arbitrary operator --
+    a later call must not depend on what was diagonalized before (other register sizes, other targets)"""
     M = Mods(env)
+    for k, (Nw, iw, cw) in enumerate(warmup):
+        gw = env.bits('warm%d' % k, (2 * Nw,))
+        tw = gw[2 * iw:] if cw else gw
+        env.assume(b_not(arr_eq(tw, [0] * len(tw))), 'warm-up operator (its relevant part) is not the identity')
+        env.run(lambda: M.ci.diagonalize(M.pa.Pauli(gw.copy(), 0), iw, causal=cw))
     g = env.bits('g', (2 * N,))
     p = env.signs('sign', (1,))[0]
     tail = g[2 * i0:] if causal else g
@@ -163,6 +170,9 @@ def jobs(tier):
                 if N in (2, 3):
                     for form in ('npint', 'negative'):
                         J.append(dict(harness=('c18', 'h_diag_pauli'), params=dict(N=N, i0=i0, causal=causal, form=form), timeout_s=300, cost=N))
+    for N, i0, causal, warm in ((3, 1, True, [[2, 0, False]]), (3, 1, True, [[2, 0, True]]), (2, 1, False, [[3, 0, False]]), (3, 2, True, [[3, 1, True]]),
+                                (2, 0, True, [[3, 1, True], [2, 1, False]])):
+        J.append(dict(harness=('c18', 'h_diag_pauli'), params=dict(N=N, i0=i0, causal=causal, warmup=warm), timeout_s=600, cost=20, max_paths=20000))
     for N in (1, 2):
         J.append(dict(harness=('c18', 'h_diag_state'), params=dict(N=N), timeout_s=600, cost=30))
     for N in (1, 2):
